@@ -375,8 +375,14 @@ pub fn runs_for(def: &PropertyDef, tier: Tier) -> u64 {
     }
 }
 
+/// Where the builds of the simulator and of the tool live (`VERIF_TARGET_DIR` moves them, e.g. for a
+/// development build against a frozen copy of the repository).
+pub fn target_dir() -> PathBuf {
+    std::env::var("VERIF_TARGET_DIR").map(PathBuf::from).unwrap_or_else(|_| verif_dir().join("target"))
+}
+
 pub fn build_bin(build: &str) -> PathBuf {
-    let t = verif_dir().join("target");
+    let t = target_dir();
     match build {
         "dev" => t.join("debug/inksim"),
         "release" => t.join("release/inksim"),
